@@ -151,6 +151,14 @@ def run(tier, seed, only=None):
         r13 = C10.o4(tier); r13.oid = 'O13'
         r13.title = 'SQLite (shared with C10-O4): a re-saved message gets all its sort keys from the new record (processed_at included), so the listing order and the pointer computed from the new record agree'
         out.append(r13)
+    if not only or 'O14' in only:
+        from props import memobs, C10
+        r14 = memobs.invalidation(tier, 'O14', 'O14')
+        r14.title = 'memory (shared with C02-O4): a rollback to epoch e invalidates exactly the messages of epochs > e -- a message of epoch e itself stays valid, so the pointer restored with the snapshot never designates an invalidated message; ' + r14.title[:120]
+        out.append(r14)
+        r15 = C10.o3(tier); r15.oid = 'O15'
+        r15.title = 'SQLite (shared with C10-O3): the invalidation after a rollback selects exactly the rows of the group with epoch > e (the message the restored pointer designates is of epoch <= e and stays valid)'
+        out.append(r15)
     if not only or 'O10' in only:
         from props import C02
         r10 = C02.o3(tier); r10.oid = 'O10'
